@@ -704,6 +704,7 @@ package redis
 //@ func (*upstream).Serve
 //@   prop C09
 //@   requires u != nil && u.done != nil && !closed(u.done)
+//@   established @before:loadClients newUpstream,(*upstream).updateClients upstream.clients @published clientsok(u)
 //@   modifies all
 //@   ensures @done-closed-on-every-return closed(u.done)
 
@@ -932,3 +933,32 @@ package redis
 //@   modifies all, trigcount
 //@   callpre refreshSlots @the-first-refresh-is-triggered-at-once-and-every-wakeup-refreshes trigcount >= old(trigcount) + 1
 //@   loop 0 invariant trigcount >= old(trigcount) + 1
+
+// ---- C07: a change of the host set reaches the client table and the slot map ----------------------------
+
+//@ func (*upstream).OnHostAdd
+//@   prop C07
+//@   requires u != nil && setok(u.hosts) && cachefresh(u.hosts) && forall k int :: 0 <= k && k < len(hosts) ==> hosts[k] != nil
+//@   requires @one-host-per-address-in-a-call forall a int, b int :: 0 <= a && a < b && b < len(hosts) ==> hosts[a].Addr != hosts[b].Addr
+//@   modifies all, trigcount
+//@   ensures @a-topology-change-triggers-a-slot-refresh len(hosts) > 0 ==> trigcount == old(trigcount) + 1
+//@   ensures @nothing-to-do-without-hosts len(hosts) == 0 ==> trigcount == old(trigcount)
+
+//@ func (*upstream).OnHostRemove
+//@   prop C07
+//@   requires u != nil && setok(u.hosts) && cachefresh(u.hosts) && forall k int :: 0 <= k && k < len(hosts) ==> hosts[k] != nil
+//@   established @before:loadClients newUpstream,(*upstream).updateClients upstream.clients @published clientsok(u)
+//@   modifies all, trigcount
+//@   callpre Stop @only-a-client-of-a-removed-host-is-stopped rangeindex + 1 < len(hosts) && has(clients, hosts[rangeindex + 1].Addr) && arg0 == clients[hosts[rangeindex + 1].Addr]
+//@   ensures @a-topology-change-triggers-a-slot-refresh len(hosts) > 0 ==> trigcount == old(trigcount) + 1
+//@   loop 0 invariant trigcount == old(trigcount) && hosts == old(hosts)
+//@   loop 0 assume (forall k int :: 0 <= k && k < len(hosts) ==> hosts[k] != nil) && forall k string :: has(clients, k) ==> clients[k] != nil
+
+//@ func (*upstream).OnHostReplace
+//@   prop C07
+//@   requires u != nil && setok(u.hosts) && cachefresh(u.hosts) && forall k int :: 0 <= k && k < len(hosts) ==> hosts[k] != nil
+//@   requires @one-host-per-address-in-a-call forall a int, b int :: 0 <= a && a < b && b < len(hosts) ==> hosts[a].Addr != hosts[b].Addr
+//@   established @before:resetAllClients newUpstream,(*upstream).updateClients upstream.clients @published clientsok(u)
+//@   modifies all, trigcount
+//@   callpre resetAllClients @the-clients-of-the-old-host-set-are-dropped len(hosts) > 0
+//@   ensures @a-topology-change-triggers-a-slot-refresh len(hosts) > 0 ==> trigcount == old(trigcount) + 1
